@@ -26,7 +26,8 @@ META = {
     "technique": "static analysis: sort-key monotonicity, scan-restart reachability, census of all-task loops in placement code, order table of the horizon update",
     "explanation": "Necessary structural conditions of priority non-interference: order antitone in priority, restart of "
                    "the scan, all-task loops in placement code select by dependency-edge identity only, horizon extension "
-                   "is raise-only. The relation between two runs is NOT decided.",
+                   "is raise-only. The relation between two runs is NOT decided."
+                   " Also: truth table of the inheritance guard (provided or inherited), evaluation of any priority range guard at 1 / 500 / 1000, the default deadline of backward tasks being the declared project end, and the local-id identity census.",
     "assumptions": [],
 }
 
